@@ -9,6 +9,7 @@ import os, json, math
 LOG_ENV = 'XYZV_CALLLOG'
 FAIL_ENV = 'XYZV_FAILFILE'
 STAGGER_ENV = 'XYZV_STAGGER'      # seconds: calls for odd-numbered combinations take this long (completion order != submission order)
+STAGGER_SPREAD_ENV = 'XYZV_STAGGER_SPREAD'   # if set: 0, 1 or 2 times that long, chosen by a hash of the combination number instead
 
 
 def log_path():
@@ -82,7 +83,7 @@ def render(kind, code):
 
 class Rec:
     """spec = {'args': [name...], 'values': {name: [python values in rank order]}, 'kind': kind,
-               'fail_codes': [...], 'as_xr': bool, 'dims': {var: [dim names]} }"""
+               'fail_codes': [...], 'as_xr': bool, 'dims': {var: [dim names]}, 'as_np': bool }"""
 
     def __init__(self, spec):
         self.spec = spec
@@ -106,7 +107,10 @@ class Rec:
         _append({k: (v if isinstance(v, (int, float, str, bool, type(None))) else repr(v)) for k, v in kw.items()})
         c = self.code(kw)
         st = os.environ.get(STAGGER_ENV)
-        if st and c % 2 == 1:
+        if st and os.environ.get(STAGGER_SPREAD_ENV):
+            import time
+            time.sleep(float(st) * (((c * 2654435761) >> 7) % 3))
+        elif st and c % 2 == 1:
             import time
             time.sleep(float(st))
         if c in self.spec.get('fail_codes', ()):
@@ -117,6 +121,14 @@ class Rec:
                 if c in json.load(fh):
                     raise ValueError('boom')
         out = render(self.spec['kind'], c + self.spec.get('offset', 0))     # offset: a *different* function on the same arguments
+        if self.spec.get('as_np'):
+            # the function hands back numpy arrays (dtype int64 / bool / <U.. / float64 by leaf) instead of nested lists
+            import numpy as np
+            k = next(iter(self.spec['kind']))
+            if k == 'arr':
+                out = np.asarray(out)
+            elif k == 'tuple':
+                out = tuple(np.asarray(o) if isinstance(o, list) else o for o in out)
         ax = self.spec.get('as_xr')
         if ax:
             import xarray as xr, numpy as np
